@@ -41,6 +41,7 @@ func TestMain(m *testing.M) {
 		}
 		return run(c, ev.Get(ID)).Violation
 	})
+	registerHandBuiltReplay() // kind "handbuilt" (handbuilt_test.go)
 	ev.Main(m)
 }
 
